@@ -269,6 +269,7 @@ func c18Run(k c18Case, st *c18Stats) (int, string) {
 		mp   text.Segment
 	}
 	var slot *saved
+	var slots [4]*saved
 	l0, p0 := rd.Position()
 	init := saved{l0, p0, m.line, m.pos}
 
@@ -355,6 +356,31 @@ func c18Run(k c18Case, st *c18Stats) (int, string) {
 				m.advanceLine()
 				if st != nil {
 					st.lineChange = true
+				}
+			case "AdvanceLines":
+				for j := o.Arg2 % 300; j > 0 && !m.atEnd(); j-- {
+					rd.AdvanceLine()
+					m.advanceLine()
+				}
+				name = "AdvanceLine"
+				if st != nil {
+					st.lineChange = true
+				}
+			case "SaveK":
+				l, p := rd.Position()
+				slots[o.Arg%4] = &saved{l, p, m.line, m.pos}
+				name = "Save"
+				desc = checkPos("Position")
+			case "RestoreK":
+				s := slots[o.Arg%4]
+				if s == nil {
+					s = &init
+				}
+				rd.SetPosition(s.line, s.pos)
+				m.line, m.pos = s.ml, s.mp
+				name = "Restore"
+				if st != nil {
+					st.restored = true
 				}
 			case "Save":
 				l, p := rd.Position()
@@ -702,6 +728,58 @@ func runC18(c *core.Ctx) {
 		c.Count("random_cases", 1)
 		if c.WantSample() && i%50000 == 11 {
 			c.Sample(map[string]any{"kind": "random-sequence", "case": k.String()})
+		}
+	}
+	// 3. long sources: the number of lines at every boundary size (a reader that caches per-line data in a bounded table, or
+	// bounds a look-ahead, changes behaviour beyond some line count), several saved positions, jumps far back and forth
+	longNames := []string{"PeekLine", "Peek", "Advance", "AdvanceRest", "AdvanceLine", "AdvanceLines", "AdvanceLines", "SaveK", "SaveK", "RestoreK", "RestoreK", "RestoreK",
+		"LineOffset", "LineOffset", "FindClosure", "FindClosure", "FindClosureAdv", "TabPad"}
+	lk := 0
+	for _, nl := range wl.BoundarySizes {
+		if nl < 2 || nl > 1100 {
+			continue
+		}
+		for rep := 0; rep < c.N(24, 400); rep++ {
+			lk++
+			if !c.Mine(lk) {
+				continue
+			}
+			lineAlpha := []string{"a", "b ", "\t", "  ", "é", "(", "`", "\\"}
+			if rep%2 == 1 {
+				lineAlpha = append(lineAlpha, "[", "]", "[x]", ")")
+			}
+			var sb []byte
+			for l := 0; l < nl; l++ {
+				for w := r.Intn(5); w > 0; w-- {
+					sb = append(sb, lineAlpha[r.Intn(len(lineAlpha))]...)
+				}
+				if rep%3 == 2 && l%7 == 3 {
+					sb = append(sb, '\r')
+				}
+				sb = append(sb, '\n')
+			}
+			if rep%4 == 0 {
+				sb = append([]byte("[ "), sb...)
+			}
+			k := c18Case{Src: sb}
+			if rep%3 == 1 {
+				k.Block, k.Segs = true, c18CanonicalSegs(sb, rep%2)
+				if len(k.Segs) == 0 {
+					k.Block = false
+				}
+			}
+			for l := 8 + r.Intn(40); l > 0; l-- {
+				if r.Intn(6) == 0 {
+					// an excursion: remember the place, jump to another remembered place, move on some lines, come back, look
+					a, b := r.Intn(4), r.Intn(4)
+					k.Ops = append(k.Ops, c18Op{Name: "SaveK", Arg: a}, c18Op{Name: "RestoreK", Arg: b}, c18Op{Name: "AdvanceLines", Arg2: r.Intn(300)},
+						c18Op{Name: "RestoreK", Arg: a}, c18Op{Name: "LineOffset"}, c18Op{Name: "PeekLine"})
+					continue
+				}
+				k.Ops = append(k.Ops, c18Op{Name: longNames[r.Intn(len(longNames))], Arg: r.Intn(16), Arg2: r.Intn(1000)})
+			}
+			runCase(k)
+			c.Count("long_source_cases", 1)
 		}
 	}
 	for n, v := range st.calls {
